@@ -30,6 +30,7 @@ type cfg struct {
 	InVars   []int
 	MaxState int
 	Prefix   []proch.Event
+	AnySet   bool
 }
 
 func emitter() (a vaa.Address) { a[31] = 0x42; return }
@@ -76,6 +77,18 @@ func configs(r *ev.Run) []cfg {
 				NSets: r.Pick(2, 3), MsgIdx: []int{0, 1}, ObsKeys: obs, Depth: d, InMsgs: []int{0, 2}, InVars: rng(0, len(proch.InVariants)), MaxState: 400000})
 		}
 	}
+	// non-initial states that need wall-clock time to be reached: the message was observed, did not reach
+	// quorum, and the cleanup service has marked it settled (30 s) / retried it (5 min) before the search starts
+	for _, n := range []int{2, 3, 4} {
+		for _, own := range []int{0, n - 1} {
+			sets := [][]int{rng(0, n), rng(1, n+1), rng(100, 100+n)}
+			for ti, ticks := range [][]proch.Event{{{Kind: "tick", DtSec: 31}}, {{Kind: "tick", DtSec: 31}, {Kind: "tick", DtSec: 330}, {Kind: "tick", DtSec: 30}}} {
+				prefix := append([]proch.Event{{Kind: "set", Set: 0}, {Kind: "msg", M: 0}, {Kind: "lb", LB: 0}}, ticks...)
+				out = append(out, cfg{C: proch.Config{Name: fmt.Sprintf("n%d-own%d-settled%d", n, own, ti), Sets: sets, OwnKey: own, Msgs: msgs()},
+					NSets: 2, MsgIdx: []int{0}, ObsKeys: append(rng(0, n+1), outsider), Depth: r.Pick(5, 6), InMsgs: []int{0}, InVars: []int{0, 1}, MaxState: 400000, Prefix: prefix, AnySet: true})
+			}
+		}
+	}
 	// large sets: signer choice restricted to q+1 guardians at three placements, own key first/middle/last/absent
 	for _, n := range []int{7, 13, 19} {
 		q := proch.Quorum(n)
@@ -109,8 +122,12 @@ func configs(r *ev.Run) []cfg {
 func menu(c cfg) proch.Enabled {
 	return func(n *proch.Node, m *proch.Model, hist []proch.Event) []proch.Event {
 		var evs []proch.Event
-		if m.Cur+1 < c.NSets {
-			evs = append(evs, proch.Event{Kind: "set", Set: m.Cur + 1})
+		// guardian-set updates arrive from several chain watchers on one channel: any known set may be
+		// delivered at any time, also an older one after a newer one
+		for s := 0; s < c.NSets; s++ {
+			if s != m.Cur && (s <= m.Cur+1 || c.AnySet) {
+				evs = append(evs, proch.Event{Kind: "set", Set: s})
+			}
 		}
 		if len(n.Pending) < 2 {
 			for _, mi := range c.MsgIdx {
